@@ -8,15 +8,20 @@ Rules (DESIGN.md 4/C15):
        volume branch hands nodes and target volumes to the kernel
   VA3  interp_volume_average: accumulate w_z*w_y*w_x*value from the `in`
        index into the `out` index, then divide by the target volume
-  VA4  _volume_average_weights: weight = length of the merged sub-interval
+  VA4  _volume_average_weights: weight = length of the merged sub-interval,
+       clamped (nearest) input index
   VA5  gradient uses the transpose of the same kind of operator on the same
        pair of grids
+
+Statement shapes are matched with AST templates (metavariables for locals,
+commutative operands), not with source text.
 """
 import ast
 
 from ..core import astutil as au
 from ..core.report import AnalysisError
 from ..core.tables import FiniteEval
+from ..core.template import find, has, require
 
 LEVEL = 'other'
 MAPS = 'emg3d/maps.py'
@@ -26,10 +31,30 @@ NAMES = ['Conductivity', 'LgConductivity', 'LnConductivity', 'Resistivity',
          'LgResistivity', 'LnResistivity']
 
 
+def inline_locals(fn, node, depth=3):
+    """Multiset of multiplicative factors of `node` after replacing
+    single-assignment local names by their defining expression."""
+    defs = {}
+    for n in ast.walk(fn):
+        if isinstance(n, ast.Assign) and len(n.targets) == 1 and isinstance(
+                n.targets[0], ast.Name):
+            defs.setdefault(n.targets[0].id, []).append(n.value)
+
+    def factors(x, d):
+        if isinstance(x, ast.BinOp) and isinstance(x.op, ast.Mult):
+            return factors(x.left, d) + factors(x.right, d)
+        if isinstance(x, ast.Name) and d > 0 and len(defs.get(x.id, [])) == 1 \
+                and isinstance(defs[x.id][0], ast.BinOp):
+            return factors(defs[x.id][0], d - 1)
+        return [ast.unparse(x)]
+    return sorted(factors(node, depth))
+
+
 def run(ctx):
     ctx.explanation = (
         'Flag/guard pairing and kernel shape of the volume-average path are '
-        'read off the AST; the log-mode expression is evaluated over the six '
+        'matched with AST templates (metavariables for locals, commutative '
+        'operands); the log-mode expression is evaluated over the six '
         'registered map names.  Conservation, range and nearest-fill (the '
         'merge loop of the weights is data dependent) are not decided.')
     ctx.assumptions = ['discretize.utils.volume_average is the same linear '
@@ -53,142 +78,182 @@ def run(ctx):
                   'linear in the logarithmic ones', ctx.where(mm, d[0]),
                   sample={'mapping': name, 'log': got})
     ctx.floor('C15.VA1.log', 6)
+
+    def kvtxt(k):
+        return ast.unparse(kv[k]) if k in kv else None
     ctx.check('C15.VA1.options', 'interpolate_to_grid uses volume averaging',
-              ast.unparse(kv.get('method', ast.Constant(None))) == "'volume'"
-              and ast.unparse(kv.get('extrapolate', ast.Constant(None))) ==
-              'True' and ast.unparse(kv.get('grid')) == 'self.grid' and
-              ast.unparse(kv.get('xi')) == ps[1],
-              'model interpolation is not method=volume, extrapolate=True '
-              'from self.grid to the new grid', ctx.where(mm, d[0]))
-    body = au.body_nodoc(fn)
-    first = body[0]
-    ok = isinstance(first, ast.If) and ast.unparse(first.test).replace(
-        ' ', '') == f'{ps[1]}==self.grid' and ast.unparse(
-            first.body[0]) == 'return self'
-    ctx.check('C15.VA1.options', 'interpolate_to_grid identity shortcut', ok,
-              'interpolation to the own grid is not the identity',
-              ctx.where(mm, fn))
-    t = ast.unparse(fn).replace(' ', '')
-    ctx.check('C15.VA1.options', 'interpolate_to_grid keeps the mapping and '
-              'all defined properties',
-              'forpropinself._def_properties:' in t and
-              'model_inp[prop]=maps.interpolate(values=var,**g2g_inp)' in t
-              and f'returnModel({ps[1]},mapping=self.map.name,**model_inp)'
-              in t, 'not every defined property is interpolated / mapping '
-              'not kept', ctx.where(mm, fn))
+              kvtxt('method') == "'volume'" and kvtxt('extrapolate') == 'True'
+              and kvtxt('grid') == 'self.grid' and kvtxt('xi') == ps[1],
+              f'model interpolation options are method={kvtxt("method")}, '
+              f'extrapolate={kvtxt("extrapolate")}, grid={kvtxt("grid")}, '
+              f'xi={kvtxt("xi")}', ctx.where(mm, d[0]))
+    require(ctx, 'C15.VA1.options', 'interpolate_to_grid identity shortcut',
+            f'if {ps[1]} == self.grid:\n    return self', fn,
+            'interpolation to the own grid is not the identity',
+            ctx.where(mm, fn))
+    b = require(ctx, 'C15.VA1.options', 'interpolate_to_grid: every defined '
+                'property', 'for _p_ in self._def_properties:\n'
+                '    _v_ = getattr(self, _p_)\n'
+                '    _m_[_p_] = maps.interpolate(values=_v_, **_o_)', fn,
+                'not every defined property is interpolated with the common '
+                'options', ctx.where(mm, fn))
+    if b:
+        require(ctx, 'C15.VA1.options', 'interpolate_to_grid keeps the '
+                'mapping', f'return Model({ps[1]}, mapping=self.map.name, '
+                f'**{b["_m_"]})', fn, 'mapping is not kept / interpolated '
+                'properties not used', ctx.where(mm, fn))
     # VA2
     mp = ctx.repo.mod(MAPS)
     it = mp.func('interpolate')
-    ips = au.all_params(it)
-    ifs = [n for n in it.body if isinstance(n, ast.If) and
-           ast.unparse(n.test) == 'log']
-    ok = len(ifs) == 2 and ast.unparse(ifs[0].body[0]).replace(' ', '') == \
-        'values=np.log10(values)' and ast.unparse(ifs[1].body[0]).replace(
-            ' ', '') == 'values_x=10**values_x' and it.body.index(ifs[0]) \
-        < it.body.index(ifs[1])
+    first = find('if log:\n    _v_ = np.log10(_v_)', it)
+    last = find('if log:\n    _w_ = 10**_w_', it)
     reass = [n for n in ast.walk(it) if isinstance(n, (ast.Assign,
                                                        ast.AugAssign))
              and any(ast.unparse(t_) == 'log' for t_ in (
                  n.targets if isinstance(n, ast.Assign) else [n.target]))]
+    ok = len(first) == 1 and len(last) == 1 and not reass and \
+        first[0][0].lineno < last[0][0].lineno and \
+        first[0][1]['_v_'] in au.all_params(it)
     ctx.check('C15.VA2.flag', 'maps.interpolate: log10 in / 10** out under '
-              'the same flag', ok and not reass, 'logarithm on entry and '
-              'power on exit are not guarded by one unchanged flag',
-              ctx.where(mp, it))
-    call = au.calls(it, 'interp_volume_average')
-    ctx.anchor(len(call) == 1, 'interp_volume_average call')
-    kws = {k.arg: ast.unparse(k.value).replace(' ', '')
-           for k in call[0].keywords}
-    want = {'nodes_x': 'points[0]', 'nodes_y': 'points[1]',
-            'nodes_z': 'points[2]', 'values': 'values',
-            'new_nodes_x': 'new_points[0]', 'new_nodes_y': 'new_points[1]',
-            'new_nodes_z': 'new_points[2]', 'new_values': 'values_x',
-            'new_vol': "xi.cell_volumes.reshape(shape,order='F')"}
+              'the same flag', ok, 'logarithm on entry and power on exit are '
+              'not guarded by one unchanged flag', ctx.where(mp, it))
+    if ok:
+        rets = [n for n in ast.walk(it) if isinstance(n, ast.Return)]
+        ctx.check('C15.VA2.flag', 'maps.interpolate returns the '
+                  'back-transformed values', len(rets) == 1 and
+                  last[0][1]['_w_'] in ast.unparse(rets[0].value),
+                  'the returned array is not the one the power is applied to',
+                  ctx.where(mp, it))
+    pts = find('_p_, _np_, _sh_ = _points_from_grids(__, __, __, __)', it)
+    ctx.anchor(len(pts) == 1, 'point vectors in maps.interpolate')
+    bb = pts[0][1]
+    vname = first[0][1]['_v_'] if first else 'values'
+    call = find('interp_volume_average(nodes_x=_p_[0], nodes_y=_p_[1], '
+                'nodes_z=_p_[2], values=_v_, new_nodes_x=_np_[0], '
+                'new_nodes_y=_np_[1], new_nodes_z=_np_[2], new_values=_o_, '
+                "new_vol=_xi_.cell_volumes.reshape(_sh_, order='F'))", it,
+                dict(bb, _v_=vname))
     ctx.check('C15.VA2.callsite', 'maps.interpolate -> interp_volume_average',
-              kws == want and [ast.unparse(t_).replace(' ', '') for t_, p in
-                               au.guards_of(call[0], it)] ==
-              ["method=='volume'"], f'arguments {kws}',
-              ctx.where(mp, call[0]), sample={'keywords': kws})
-    zero = [n for n in ast.walk(it) if isinstance(n, ast.Assign) and
-            ast.unparse(n.targets[0]) == 'values_x' and 'np.zeros' in
-            ast.unparse(n.value)]
-    ctx.check('C15.VA2.callsite', 'maps.interpolate: accumulator starts at '
-              'zero', len(zero) == 1 and zero[0].lineno < call[0].lineno,
-              'target array is not zero before accumulation',
+              len(call) == 1, 'old/new node vectors, values and target '
+              'volumes are not handed to the kernel in their roles',
               ctx.where(mp, it))
+    if call:
+        c, cb = call[0]
+        gs = [(ast.unparse(t_).replace(' ', ''), p)
+              for t_, p in au.guards_of(c, it)]
+        ctx.check('C15.VA2.callsite', 'kernel only in volume mode',
+                  gs == [("method=='volume'", True)],
+                  f'kernel call is guarded by {gs}', ctx.where(mp, c))
+        zero = find(f'{cb["_o_"]} = np.zeros(_sh_, order=__, dtype=__)', it,
+                    {'_sh_': bb['_sh_']})
+        ctx.check('C15.VA2.callsite', 'accumulator starts at zero',
+                  len(zero) == 1 and zero[0][0].lineno < c.lineno,
+                  'target array is not zero before accumulation',
+                  ctx.where(mp, it))
     # VA3
     kv_ = mp.func('interp_volume_average')
     kp = au.params(kv_)
-    t = ast.unparse(kv_).replace(' ', '')
-    for ax, (nin, nout) in zip('xyz', ((kp[0], kp[4]), (kp[1], kp[5]),
-                                       (kp[2], kp[6]))):
+    ctx.anchor(len(kp) == 9, 'interp_volume_average signature')
+    wb = {}
+    for a, ax in enumerate('xyz'):
+        f = find(f'_w_, _i_, _o_ = _volume_average_weights({kp[a]}, '
+                 f'{kp[4 + a]})', kv_)
         ctx.check('C15.VA3.kernel', f'interp_volume_average weights axis '
-                  f'{ax}', f'w{ax},i{ax}_in,i{ax}_out='
-                  f'_volume_average_weights({nin},{nout})' in t,
-                  f'weights of axis {ax} are not built from (old nodes, new '
-                  'nodes) of this axis', ctx.where(mp, kv_))
-        ctx.check('C15.VA3.kernel', f'interp_volume_average indices axis '
-                  f'{ax}', f'i{ax}i=i{ax}_in[i{ax}]' in t and
-                  f'i{ax}o=i{ax}_out[i{ax}]' in t,
-                  'input / output cell indices are not taken from the in / '
-                  'out index vectors', ctx.where(mp, kv_))
-    acc = [n for n in ast.walk(kv_) if isinstance(n, ast.AugAssign) and
-           ast.unparse(n.target).replace(' ', '') ==
-           f'{kp[7]}[ixo,iyo,izo]']
-    ok = len(acc) == 1 and isinstance(acc[0].op, ast.Add) and ast.unparse(
-        acc[0].value).replace(' ', '') in (
-            f'w_zy*w_x*{kp[3]}[ixi,iyi,izi]',
-            f'w_z*w_y*w_x*{kp[3]}[ixi,iyi,izi]') and 'w_zy=w_z*w_y' in t
-    ctx.check('C15.VA3.kernel', 'interp_volume_average accumulation', ok,
-              'kernel does not add (overlap volume) x (input value) from the '
-              'input cell to the output cell', ctx.where(mp, kv_))
+                  f'{ax}', len(f) == 1, f'weights of axis {ax} are not built '
+                  'from (old nodes, new nodes) of this axis',
+                  ctx.where(mp, kv_))
+        if f:
+            wb[a] = f[0][1]
+    acc = find(f'{kp[7]}[_a_, _b_, _c_] += __ * {kp[3]}[_d_, _e_, _f_]', kv_)
+    ctx.check('C15.VA3.kernel', 'interp_volume_average accumulation',
+              len(acc) == 1, 'kernel does not accumulate weight x input '
+              'value into the output cell', ctx.where(mp, kv_))
+    if acc and len(wb) == 3:
+        n, ab = acc[0]
+        loops = {}
+        for lp in [x for x in ast.walk(kv_) if isinstance(x, ast.For)]:
+            if isinstance(lp.target, ast.Tuple) and len(lp.target.elts) == 2 \
+                    and isinstance(lp.iter, ast.Call) and ast.unparse(
+                        lp.iter.func) == 'enumerate':
+                loops[ast.unparse(lp.iter.args[0])] = (
+                    lp.target.elts[0].id, lp.target.elts[1].id, lp)
+        wnames = []
+        for a, (oi, ii) in enumerate((('_a_', '_d_'), ('_b_', '_e_'),
+                                      ('_c_', '_f_'))):
+            w = wb[a]
+            lp = loops.get(w['_w_'])
+            ok = lp is not None and \
+                has(f'{ab[oi]} = {w["_o_"]}[{lp[0]}]', kv_) and \
+                has(f'{ab[ii]} = {w["_i_"]}[{lp[0]}]', kv_)
+            ctx.check('C15.VA3.kernel', f'interp_volume_average indices axis '
+                      f'{"xyz"[a]}', bool(ok), 'output index is not taken '
+                      'from the out-index vector / input index from the '
+                      'in-index vector of this axis', ctx.where(mp, n))
+            if lp:
+                wnames.append(lp[1])
+        fac = inline_locals(kv_, n.value)
+        want = sorted(wnames + [ast.unparse(find(
+            f'{kp[3]}[_d_, _e_, _f_]', n.value)[0][0])])
+        ctx.check('C15.VA3.kernel', 'interp_volume_average weight product',
+                  fac == want, f'accumulated term has the factors {fac}; '
+                  f'the overlap volume is the product of {wnames}',
+                  ctx.where(mp, n), sample={'factors': fac})
     last = au.body_nodoc(kv_)[-1]
     ctx.check('C15.VA3.kernel', 'interp_volume_average normalisation',
-              ast.unparse(last).replace(' ', '') == f'{kp[7]}/={kp[8]}',
+              has(f'{kp[7]} /= {kp[8]}', last) and not isinstance(
+                  au.parent(last), ast.For),
               'accumulated values are not divided by the target cell '
               'volumes at the end', ctx.where(mp, last))
     # VA4
     vw = mp.func('_volume_average_weights')
     vp = au.params(vw)
-    t = ast.unparse(vw).replace(' ', '')
-    ctx.check('C15.VA4.weights', '_volume_average_weights merged nodes',
-              f'xs=np.unique(np.concatenate(({vp[0]},{vp[1]})))' in t and
-              'wx[ii]=xs[i+1]-xs[i]' in t and
-              'center=0.5*(xs[i]+xs[i+1])' in t,
-              'weights are not the lengths of the merged sub-intervals',
-              ctx.where(mp, vw))
-    ctx.check('C15.VA4.weights', '_volume_average_weights range of the '
-              'target grid', f'if{vp[1]}[0]<=centerandcenter<={vp[1]}[n2-1]:'
-              in t, 'sub-intervals are not restricted to the target grid',
-              ctx.where(mp, vw))
+    b = require(ctx, 'C15.VA4.weights', '_volume_average_weights merged '
+                'nodes', f'_xs_ = np.unique(np.concatenate(({vp[0]}, '
+                f'{vp[1]})))', vw, 'sub-intervals are not built from the '
+                'union of both node vectors', ctx.where(mp, vw))
+    if b:
+        xs = b['_xs_']
+        require(ctx, 'C15.VA4.weights', '_volume_average_weights: weight = '
+                'sub-interval length', f'_w_[_k_] = {xs}[_i_ + 1] - {xs}[_i_]',
+                vw, 'weights are not the lengths of the merged '
+                'sub-intervals', ctx.where(mp, vw))
+        require(ctx, 'C15.VA4.weights', '_volume_average_weights: interval '
+                'midpoint', f'_c_ = 0.5 * ({xs}[_i_] + {xs}[_i_ + 1])', vw,
+                'cells are not located by the sub-interval midpoint',
+                ctx.where(mp, vw))
+    clamp = find('_ix_[_k_] = min(max(_j_ - 1, 0), _n_ - 1)', vw)
     ctx.check('C15.VA4.weights', '_volume_average_weights clamped indices '
-              '(nearest fill)', 'ix_i[ii]=min(max(i1-1,0),n1-1)' in t and
-              'ix_o[ii]=min(max(i2-1,0),n2-1)' in t and
-              'return(wx[:ii],ix_i[:ii],ix_o[:ii])' in t,
-              'input cells outside the source grid are not clamped to the '
-              'nearest cell', ctx.where(mp, vw))
+              '(nearest fill)', len(clamp) == 2, 'cell indices are not '
+              'clamped to the grid (nearest values outside the source grid)',
+              ctx.where(mp, vw))
     # VA5
     adj = mp.func('_interp_volume_average_adj')
     ap = au.params(adj)
-    t = ast.unparse(adj).replace(' ', '')
-    ok = f'P=discretize.utils.volume_average({ap[1]},{ap[3]})' in t and all(
-        f"{ap[0]}[{k},...]+=(P.T*{ap[2]}[{k},...].ravel('F'))."
-        f"reshape(shape,order='F')" in t for k in range(3)) and \
-        f'shape={ap[1]}.shape_cells' in t
-    ctx.check('C15.VA5.adjoint', '_interp_volume_average_adj', ok,
-              'gradient is not brought back with the transpose of the '
-              'volume-average operator (old grid -> new grid), component by '
-              'component', ctx.where(mp, adj))
+    b = require(ctx, 'C15.VA5.adjoint', '_interp_volume_average_adj operator',
+                f'_P_ = discretize.utils.volume_average({ap[1]}, {ap[3]})',
+                adj, 'transpose operator is not the volume average from the '
+                'old to the new grid', ctx.where(mp, adj))
+    if b:
+        P = b['_P_']
+        for k in range(3):
+            require(ctx, 'C15.VA5.adjoint', f'_interp_volume_average_adj '
+                    f'component {k}', f'{ap[0]}[{k}, ...] += ({P}.T * '
+                    f"{ap[2]}[{k}, ...].ravel('F')).reshape(_s_, order='F')",
+                    adj, f'component {k} is not brought back with the '
+                    'transposed operator', ctx.where(mp, adj))
     sm = ctx.repo.mod(SIMS)
     g = [m for m in sm.methods('Simulation', 'gradient')
          if 'property' in au.decorator_names(m)][0]
     cs = au.calls(g, 'maps._interp_volume_average_adj')
     ctx.anchor(len(cs) == 1, '_interp_volume_average_adj call in gradient')
     kws = {k.arg: ast.unparse(k.value) for k in cs[0].keywords}
+    gf = find('maps.interp_edges_to_vol_averages(ex=_g_.fx, ey=__, ez=__, '
+              'volumes=__, ox=_grad_[0, ...], oy=__, oz=__)', g)
+    ok = bool(gf) and kws == {ap[0]: 'gradient', ap[1]: 'self.model.grid',
+                              ap[2]: gf[0][1]['_grad_'],
+                              ap[3]: gf[0][1]['_g_'] + '.grid'}
     ctx.check('C15.VA5.adjoint', 'gradient -> _interp_volume_average_adj',
-              kws == {ap[0]: 'gradient', ap[1]: 'self.model.grid',
-                      ap[2]: 'grad', ap[3]: 'gfield.grid'} and [
-                  (ast.unparse(t_).replace(' ', ''), p) for t_, p in
-                  au.guards_of(cs[0], g)][-1] ==
-              ('self.model.grid!=gfield.grid', True),
-              f'arguments {kws}', ctx.where(sm, cs[0]))
+              ok, f'arguments {kws} do not map the gradient on the '
+              'computational grid back to the model grid',
+              ctx.where(sm, cs[0]))
     ctx.floor('C15.VA3.kernel', 8)
